@@ -14,7 +14,7 @@ from . import c04
 LEVEL = 'exploration'
 TECHNIQUE = 'metamorphic runtime monitoring: connection B after history A on one object vs B on a fresh object'
 BUDGET_S = {'quick': 30, 'thorough': 200}
-REQUIRED = {'all': ['oracle.pairs_compared', 'oracle.keys_compared', 'oracle.persist_chains', 'oracle.compressed_frames_inflated']}
+REQUIRED = {'all': ['oracle.pairs_compared', 'oracle.stale_iterator_finalised_during_next_connection', 'oracle.keys_compared', 'oracle.persist_chains', 'oracle.compressed_frames_inflated']}
 RULE = ('metamorphic: history A (with an abnormal ending: EOF mid-header / mid-frame-header / mid-extended-length / '
         'mid-payload / inside a fragmented message / inside a split UTF-8 character / after compressed traffic in '
         'both directions / while closing / rejected / connect failure / protocol error / unresponsive / abandoned '
@@ -22,7 +22,8 @@ RULE = ('metamorphic: history A (with an abnormal ending: EOF mid-header / mid-f
         'the normalised events, their relative times, and the decoded client frames (raw compressed bytes included) '
         'of the two B runs must be identical and the handshake keys of A and B must differ; the same chains are '
         'also produced through persist(). A class is (A ending, B scenario, options, via persist?).')
-ASSUMPTIONS = ['the previous iterator is finished or closed before the next connect() (statement interpretation)']
+ASSUMPTIONS = ['an abandoned iterator may be finalised at any later moment (immediately, right after the next connect(), or '
+               'while the next connection is running): all of these count as "the previous connection was abandoned"']
 
 F = refws.enc_frame
 Z_EXT = {'extra': [('Sec-WebSocket-Extensions', 'permessage-deflate')]}
@@ -71,6 +72,16 @@ def a_histories(z):
                               ckw=dict(ping_rate=0, close_timeout=2.0, poll=1.0), horizon=10.0)
     for k in (1, 2, 3, 4, 6):
         A['abandon@%d' % k] = dict(steps=[('raw', F(1, b'a', fin=0) + F(9, b'p') + F(0, b'\xc3', fin=0))], abandon=k)
+    # the application keeps using the object between two connections (persist() hands it BackOff events to do so):
+    # close() while there is no connection, sends that fail - none of it may leak into the next attempt
+    A['connect-fail-then-app-close'] = dict(gai=True, steps=[], after=[['close']])
+    A['connect-fail-then-app-close-args'] = dict(gai=True, steps=[], after=[['close', 1001, 'going away'], ['send_text', 'x'], ['close']])
+    A['refused-then-app-close'] = dict(refused=True, steps=[], after=[['close'], ['send_ping', b'p']])
+    A['rejected-then-app-close'] = dict(hs=dict(status=503, reason='Busy'), steps=[('eof',)], after=[['close', 1000, 'x']])
+    A['eof-mid-header-then-app-close'] = dict(hsraw=b'HTTP/1.1 101 Switching Protocols\r\nUpgrade: webso', steps=[('eof',)],
+                                             after=[['send_binary', b'zz'], ['close']])
+    A['eof-mid-payload-then-app-sends'] = dict(steps=[('raw', F(1, b'hello world')[:6]), ('eof',)],
+                                              after=[['send_text', 'late'], ['send_pong', b''], ['close', 4000, 'late']])
     A['proxy-200-then-eof'] = dict(proxy_reply=b'HTTP/1.1 200 Connection established\r\n\r\n', steps=[('raw', F(1, b'via proxy')), ('eof',)])
     A['proxy-503'] = dict(proxy_reply=b'HTTP/1.1 503 Service Unavailable\r\n\r\n', steps=[])
     A['proxy-half-reply-eof'] = dict(proxy_reply=b'HTTP/1.1 200 Connection est', steps=[])
@@ -140,6 +151,18 @@ def cases(tier, seed, i, n):
                     yield dict(z=z, a=an, b=bn, via='connect')
                     if (len(an) + len(bn)) % 3 == 0 or tier == 'thorough':
                         yield dict(z=z, a=an, b=bn, via='persist')
+        # the iterator of the abandoned previous connection is still alive when connect() is called again
+        # (`events = ws.connect()` rebinding, a reference cycle, PyPy): it is finalised LATER - just after
+        # connect() returned, or while the next connection is at its j-th event
+        for z in (False, True):
+            A = a_histories(z)
+            B = b_histories(z)
+            for an in A:
+                if A[an].get('abandon') is None:
+                    continue
+                for bn in B:
+                    for at in (-1, 0, 1, 2, 3, 5):
+                        yield dict(z=z, a=an, b=bn, via='connect', stale_at=at)
         rnd = random.Random(seed * 523 + 17)
         for _ in range(600 if tier == 'quick' else 200000):
             z = rnd.random() < 0.5
@@ -159,7 +182,8 @@ def world_for(h, z, seg=None):
     steps = [first] + [st if st[0] != 'reset' else ('err', 'reset') for st in h['steps']]
     if 'proxy_reply' in h:
         steps = [('proxy', h['proxy_reply'])] + (steps if h['proxy_reply'].startswith(b'HTTP/1.1 200') else [('eof',)])
-    return dict(steps=steps, gai=bool(h.get('gai')), horizon=h.get('horizon', 0.0), cuts=seg)
+    return dict(steps=steps, gai=bool(h.get('gai')), horizon=h.get('horizon', 0.0), cuts=seg,
+                addrs=[('refused', ('10.0.0.1', 80)), ('refused', ('2001:db8::2', 80, 0, 0))] if h.get('refused') else None)
 
 
 def ckw_of(h):
@@ -181,18 +205,49 @@ def observe_b(run, w, z):
     return dict(events=evs, end=run.end, frames=frames, npolls=run.names.count('poll')), key
 
 
-def run_one(ws, h, z, seg=None, abandon=None):
+def run_one(ws, h, z, seg=None, abandon=None, keep_open=False, stale=None):
+    """stale = (generator, its world, point): finalise that older iterator at `point` of this connection"""
     spec = world_for(h, z, seg)
     w = H.World(lambda _i: simnet.ScriptServer(spec['steps']), gai_error=spec['gai'], horizon=spec['horizon'],
-                stop_at=spec['horizon'] or None, cuts=spec['cuts'], budget=200000)
+                stop_at=spec['horizon'] or None, cuts=spec['cuts'], budget=200000, addrs=spec['addrs'])
+    policy = H.TablePolicy(h.get('policy'))
+    pre_iter = None
+    if stale is not None:
+        sgen, sworld, point = stale
+        done = []
+
+        def finalise():
+            if not done:
+                done.append(1)
+                with simnet.Installed(sworld):
+                    sgen.close()
+
+        if point < 0:
+            def pre_iter(_run):
+                finalise()
+        inner = policy
+
+        def policy(ws_, ev, idx, run_):    # noqa
+            if idx == point:
+                finalise()
+            inner(ws_, ev, idx, run_)
     run = H.drive(w, ws=ws, ws_kwargs=dict(compress=bool(z), proxies=PROXIES), connect_kwargs=ckw_of(h),
-                  policy=H.TablePolicy(h.get('policy')), stop_after=abandon)
+                  policy=policy, stop_after=abandon, pre_iter=pre_iter)
+    if stale is not None:
+        run.stale_finalised = bool(done)
+        finalise()
+    if keep_open:
+        return run, w
     if abandon is not None or run.end in ('quiesced', 'stopped'):
         try:
             with simnet.Installed(w):
                 run.gen.close()
         except Exception as e:   # noqa
             run.exc = 'close raised %r' % e
+    if h.get('after'):
+        with simnet.Installed(w):
+            for act in h['after']:
+                H.app_call(run, run.ws, act[0], *act[1:])
     return run, w
 
 
@@ -217,7 +272,21 @@ def _run_pair(case, acc, z, A, B, chain, hb, seg):
     ref_run, ref_w = run_one(None, hb, z, seg)
     ref_obs, ref_key = observe_b(ref_run, ref_w, z)
     keys = []
-    if case['via'] == 'connect':
+    if case.get('stale_at') is not None:
+        an = chain[0]
+        ra, wa = run_one(None, A[an], z, seg, abandon=A[an].get('abandon'), keep_open=True)
+        if wa.conns:
+            keys.append(refhttp.request_key(bytes(wa.conns[0].tx)))
+        rb, wb = run_one(ra.ws, hb, z, seg, stale=(ra.gen, wa, case['stale_at']))
+        obs, kb = observe_b(rb, wb, z)
+        acc.count2('oracle', 'stale_iterator_pairs')
+        if rb.stale_finalised:
+            acc.count2('oracle', 'stale_iterator_finalised_during_next_connection')
+        if wa.socks and not wa.socks[0].closed:
+            acc.violation('stale-iterator-finalised-but-its-own-socket-left-open', 'C17: A=%s B=%s stale_at=%s' % (an, case['b'], case['stale_at']),
+                          case, dict(a_events=ra.names))
+            return
+    elif case['via'] == 'connect':
         ws = None
         for an in chain:
             ra, wa = run_one(ws, A[an], z, seg, abandon=A[an].get('abandon'))
@@ -236,6 +305,8 @@ def _run_pair(case, acc, z, A, B, chain, hb, seg):
     if obs != ref_obs:
         diff = [k for k in obs if obs[k] != ref_obs[k]]
         key = 'state-leaked-into-next-connection:' + '+'.join(diff)
+        if case.get('stale_at') is not None:
+            key = 'stale-iterator-of-previous-connection-disturbs-the-next-one'
         detail = dict(after_previous={k: obs[k] for k in diff}, fresh={k: ref_obs[k] for k in diff})
     for k in keys:
         acc.count2('oracle', 'keys_compared')
@@ -259,7 +330,7 @@ def _run_pair(case, acc, z, A, B, chain, hb, seg):
     if key:
         acc.violation(key, 'C17 %s: A=%s B=%s z=%s via=%s' % (key, chain, case['b'], z, case['via']), case, detail)
     else:
-        acc.cls('%s|%s|z%d|%s' % ('>'.join(chain), case['b'], int(z), case['via']))
+        acc.cls('%s|%s|z%d|%s|%s' % ('>'.join(chain), case['b'], int(z), case['via'], case.get('stale_at')))
         if acc.evaluations % 97 == 1:
             acc.sample(dict(A=chain, B=case['b'], z=z, via=case['via'], b_events=[e[0][0] for e in obs['events']]))
 
@@ -289,7 +360,7 @@ def via_persist(chain, A, hb, z, seg, acc):
         h = hist[min(i, len(hist) - 1)]
         spec = world_for(h, z, seg)
         w = H.World(lambda _i: simnet.ScriptServer(spec['steps']), gai_error=spec['gai'], horizon=spec['horizon'],
-                    stop_at=spec['horizon'] or None, cuts=spec['cuts'], budget=200000)
+                    stop_at=spec['horizon'] or None, cuts=spec['cuts'], budget=200000, addrs=spec['addrs'])
         worlds.append(w)
         run = H.Run()
         run.world = w
@@ -336,7 +407,12 @@ def via_persist(chain, A, hb, z, seg, acc):
     ws.connect = connect
     try:
         for _ev in env.persist(ws, min_wait=0, max_wait=0, exit_event=Ex(), ping_rate=0):
-            pass
+            if _ev.name == 'back_off' and runs and hist[min(len(runs), len(hist)) - 1].get('after'):
+                # the application reacts to BackOff, between two attempts
+                with simnet.Installed(worlds[-1]):
+                    for act in hist[min(len(runs), len(hist)) - 1]['after']:
+                        H.app_call(runs[-1], ws, act[0], *act[1:])
+                acc.count2('oracle', 'app_calls_between_attempts')
     except Exception as e:   # noqa
         acc.inconclusive.append('persist chain raised %r' % (e,))
         return None, None, None
